@@ -164,4 +164,10 @@ def verify {F : Type} [DecidableEq F] (enc : ClaimData → F) (stmts : List Stmt
       | some s => .errVerifier s.id
       | none => .ok
 
+/-- `EqualityVerifier::verify` once the responses of the referenced claims are collected: every
+element equals the first; an empty list is an error -/
+def allEqual {F : Type} [DecidableEq F] : List F → Bool
+  | [] => false            -- "must have at least one claim in an equality proof"
+  | p :: ps => ps.all (· == p)
+
 end AC.Verify
